@@ -996,7 +996,22 @@ mod t {
         db.mark_resident(&[1u8; 16]);
         db.mark_non_resident(&[2u8; 16]);
         let _ = db.save();
-        std::fs::read(&p).map(|d| vec![("built:residency-2".to_string(), d)]).unwrap_or_default()
+        let mut v: Vec<(String, Vec<u8>)> = std::fs::read(&p).map(|d| vec![("built:residency-2".to_string(), d)]).unwrap_or_default();
+        // 26 keys of one bucket (the bucket is a fold of the XOR of the key bytes): a page with all
+        // 25 slots occupied, followed by a page with one
+        let p2 = sc.path.join("residency-full-page.db");
+        let mut db = cascette_client_storage::kmt::key_state::ResidencyDb::new(p2.clone());
+        for i in 1..=26u8 {
+            let mut k = [0u8; 16];
+            k[0] = i;
+            k[1] = i;
+            db.mark_resident(&k);
+        }
+        let _ = db.save();
+        if let Ok(d) = std::fs::read(&p2) {
+            v.push(("built:residency-full-page".to_string(), d));
+        }
+        v
     }
     pub fn lru_run(d: &[u8]) -> bool {
         use cascette_client_storage::lru::{LruManager, lru_file};
